@@ -20,8 +20,8 @@ def gen(c):
 def run(c):
     c.rule = ("a case draws 2-6 contributions (simple values/counters, streams of AddValueCounterHost events, arbitrary ItemValue leaves, "
               "each with a small unique sketch sharing values) and evaluates 4 merge programs on the real code (given order, permutations, "
-              "random binary trees) through MultiValue.Merge; every 5th case does the same for API rows (tsValues.merge); every 100th case "
-              "(quick; 125th thorough) builds 2-3 sketches of 1..280000 values (sizes around 2^16 included) and merges them with ChUnique.Merge and "
+              "random binary trees) through MultiValue.Merge (stream `values`: quick 400, thorough 8000); stream `ts` does the same for API "
+              "rows with tsValues.merge (100 / 2000); stream `sketch` (6 / 80 cases) builds 2-3 sketches of 1..280000 values (sizes around 2^16 included) and merges them with ChUnique.Merge and "
               "MergeRead in several orders. Non-trivial = a merge consumed a random draw / two leaves tie for the minimum / API rows / "
               "sketch operands with different skipDegree; distinct by op-sequence hash")
     c.assumptions += [
@@ -35,19 +35,19 @@ def run(c):
     c.prove("SH.Props.C04", extra_files=["SH/Model/Agg.lean", "SH/Model/Unique.lean", "SH/Lemmas/UniqueTrie.lean"])
     drv = c.driver(DRIVER)
     if binary and drv:
-        # mixed stream: values / API rows / a few big-sketch cases
-        n = c.n(500, 10000)
-        every = c.n(100, 125)
-        rc, out = c.go_run(binary, [f"-n={n}", f"-arg={every}"], timeout=3000)
-        c.harness_ok(rc, out, "verif-c04")
-        c.correspond(out, drv, timeout=3000)
+        # three streams (the label is the harness -mode, so that `bin/check C04 --replay f` regenerates the same case)
+        for mode, n in (("values", c.n(400, 8000)), ("ts", c.n(100, 2000)), ("sketch", c.n(6, 80))):
+            rc, out = c.go_run(binary, [f"-n={n}", f"-mode={mode}"], timeout=3000)
+            c.harness_ok(rc, out, f"verif-c04 -mode={mode}")
+            c.correspond(out, drv, label=mode, timeout=3000)
 
     def search():
         if not binary:
             return
         for k in range(1, 6):
-            rc, out = c.go_run(binary, [f"-n={c.n(2000, 8000)}", f"-arg={c.n(40, 40)}", f"-seed={c.seed + 1000 * k}"], timeout=3000)
-            c.collect(out)
+            for mode, n in (("sketch", 30), ("values", c.n(2000, 8000)), ("ts", c.n(500, 2000))):
+                rc, out = c.go_run(binary, [f"-n={n}", f"-mode={mode}", f"-seed={c.seed + 1000 * k}"], timeout=3000)
+                c.collect(out, label=mode)
             if c.oracle:
                 return
     return search
@@ -62,7 +62,9 @@ META = {
              "set of inserted hashes (least skipDegree that fits, the values divisible by it), for arbitrary size limit; decide-witnesses show the pre-fix Merge/MergeRead "
              "violate this. The model is tied to /repo by replaying every generated op on the real objects and on the compiled model."),
     "note": ("Trusted: Lean kernel, the model<->code correspondence on generated programs (incl. sketches above 2^16 values), exact-domain float arithmetic, the set "
-             "abstraction of the open-addressing table. Requires the fix: patch fixes/C04-chunique-merge.diff (Merge filtered with rhs.good, MergeRead did not adopt "
-             "skipDegree, readers chose sizeDegree 18 for exactly 2^16 values); on the unfixed tree the check reports VIOLATION with a replay."),
+             "abstraction of the open-addressing table (its layout/collision handling is only differential-tested). The theorems are about the code after "
+             "fixes/C04-chunique-merge.diff (/repo commit e786491b: Merge filtered with rhs.good, MergeRead did not adopt skipDegree, readers chose sizeDegree 18 "
+             "for exactly 2^16 values); on the tree before it the check prints VIOLATION with replays (sig unique-merge-order, unique-mergeread-vs-merge). "
+             "Not proved: the table refinement (buf/place/rehash chains) and IEEE rounding outside the exact domain; ApplyUnique and t-digest are not modelled."),
     "design_ref": "DESIGN.md §6 C04",
 }
